@@ -42,6 +42,9 @@ def synthetic_loads(spec):
         if v != 0.0:
             v *= 1.0 + 0.04 * (rnd.random() - 0.5)      # multiplicative noise: exact zeros stay zero
         out.append(round(v * scale, 3))
+    sh = int(spec.get("shift_hours", 0))
+    if sh:
+        out = out[-sh:] + out[:-sh]              # the same year of loads started `shift_hours` later (same length, same annual total)
     return out
 
 
